@@ -315,6 +315,21 @@ func c12Workload[T any](rep *Report, codec Codec[T], api string, exit string) {
 	// while the call is in flight the closure must be invocable; afterwards never
 	var res callResult
 	switch exit {
+	case "two-closures":
+		var ranB int64
+		cb2 := func(ctx context.Context, i int, s string) (string, error) { atomic.AddInt64(&ranB, 1); return "ranB", nil }
+		res = withWatchdog(func() (any, error) { return ra.KeepTwo(ctx, 1, cb, cb2) })
+		if res.ok && res.err == nil && res.val.(string) != "ran/<nil>|ranB/<nil>" {
+			rep.addViolation("property", key+":two-during", fmt.Sprintf("two closures passed in one call, invoked during the call: %q", res.val), desc)
+		}
+		// both must be gone now
+		if k2 := p.B.Svc.Kept(2); k2 != nil {
+			before := atomic.LoadInt64(&ranB)
+			r := withWatchdog(func() (any, error) { return k2(context.Background(), 1, "late") })
+			if !r.ok || r.err == nil || !strings.Contains(r.err.Error(), rpc.ErrClosureDoesNotExist.Error()) || atomic.LoadInt64(&ranB) != before {
+				rep.addViolation("property", key+":late-second", fmt.Sprintf("late invocation of the second closure returned (%v, %v)", r.val, r.err), desc)
+			}
+		}
 	case "success":
 		res = withWatchdog(func() (any, error) { return nil, ra.KeepClosure(ctx, 1, cb) })
 	case "handler-error":
@@ -394,7 +409,7 @@ func runC12(rep *Report, tier string, seed int64) {
 	}
 	for r := 0; r < reps; r++ {
 		for _, api := range apis() {
-			for _, exit := range []string{"success", "marshal-failure", "cancel", "link-death"} {
+			for _, exit := range []string{"success", "two-closures", "marshal-failure", "cancel", "link-death"} {
 				switch r % 3 {
 				case 0:
 					c12Workload(rep, jsonRaw(), api, exit)
